@@ -275,13 +275,22 @@ def c14(tier, seed):
 CHECKS.update({"C13": c13, "C14": c14})
 
 
+MONITORS = {
+    "api_monitor": ("asan", "rel"),
+    "tables_monitor": ("asan", "rel"),
+    "kpk_monitor": ("asan", "rel"),
+    "time_monitor": ("asan", "rel"),
+    "eval_monitor": ("asan", "rel"),
+}
+
+
 def setup():
     core.ensure_selftest()
     for fl in ("asan", "rel"):
         core.ensure_engine(fl)
-    for m in ("api_monitor",):
-        core.ensure_monitor("asan", m)
-        core.ensure_monitor("rel", m)
+    for m, fls in MONITORS.items():
+        for fl in fls:
+            core.ensure_monitor(fl, m)
     for d in ("evidence", "replay"):
         os.makedirs(os.path.join(core.ROOT, d), exist_ok=True)
     print("setup ok")
